@@ -255,6 +255,8 @@ type vPDRSpec struct {
 }
 
 type vFARSpec struct {
+	FwdOrder int // permutation of the IEs inside (Update) Forwarding Parameters
+
 	ID      uint32
 	Action  uint8
 	Fwd     bool // include (Update) Forwarding Parameters
@@ -349,6 +351,21 @@ func (s vFARSpec) fwdIEs() []*ie.IE {
 			fl |= 0x02
 		}
 		f = append(f, ie.NewPFCPSMReqFlags(fl))
+	}
+	// the order of the IEs inside the grouped IE carries no meaning
+	switch s.FwdOrder % 4 {
+	case 1:
+		for i, j := 0, len(f)-1; i < j; i, j = i+1, j-1 {
+			f[i], f[j] = f[j], f[i]
+		}
+	case 2:
+		if len(f) > 1 {
+			f = append(f[1:], f[0])
+		}
+	case 3:
+		if len(f) > 2 {
+			f[1], f[2] = f[2], f[1]
+		}
 	}
 	return f
 }
